@@ -376,13 +376,34 @@ def build(case, blk):
             tag = blk.create_multi_tag("tag", "c08", parr, earr)
     if case.get("units") is not None:
         tag.units = list(case["units"])
+    sel = case.get("sel") or {}
+    # a second referenced array / feature ("decoy": same descriptors, other values) before or after the one that is
+    # asked for, and the reference / feature addressed by position, name or id: the data must come from the array
+    # that was ASKED FOR
+    rdecoy = sel.get("rdecoy", "none")
+    if rdecoy == "before":
+        tag.references.append(build_array(blk, "decoy", case["ref"], 2)[0])
     tag.references.append(ref)
+    if rdecoy == "after":
+        tag.references.append(build_array(blk, "decoy", case["ref"], 2)[0])
+    rby = sel.get("rby", "index")
+    refsel = {"index": 1 if rdecoy == "before" else 0, "neg": -2 if rdecoy == "after" else -1,
+              "name": "ref", "id": ref.id}[rby]
     feat = featdata = None
+    featsel = 0
     if case.get("feat"):
+        lt = {"tagged": nixio.LinkType.Tagged, "indexed": nixio.LinkType.Indexed, "untagged": nixio.LinkType.Untagged}
         feat, featdata = build_array(blk, "feat", case["feat"], 1)
-        tag.create_feature(feat, {"tagged": nixio.LinkType.Tagged, "indexed": nixio.LinkType.Indexed,
-                                  "untagged": nixio.LinkType.Untagged}[case["feat"]["link"]])
-    return tag, refdata, featdata
+        fdecoy = sel.get("fdecoy", "none")
+        dlink = lt[LINKS[(LINKS.index(case["feat"]["link"]) + 1) % len(LINKS)]]
+        if fdecoy == "before":
+            tag.create_feature(build_array(blk, "fdecoy", case["feat"], 3)[0], dlink)
+        fobj = tag.create_feature(feat, lt[case["feat"]["link"]])
+        if fdecoy == "after":
+            tag.create_feature(build_array(blk, "fdecoy", case["feat"], 3)[0], dlink)
+        featsel = {"index": 1 if fdecoy == "before" else 0, "neg": -2 if fdecoy == "after" else -1,
+                   "fid": fobj.id, "dname": "feat", "did": feat.id}[sel.get("fby", "index")]
+    return tag, refdata, featdata, refsel, featsel
 
 
 def observe(fn, *args):
@@ -402,6 +423,20 @@ def observe(fn, *args):
     except Exception as exc:  # noqa
         return ("view-error", None, "%s: %s" % (type(exc).__name__, str(exc)[:120]))
     return ("view", bool(valid), data)
+
+
+def same_observation(a, b):
+    if a[0] != b[0]:
+        return False
+    if a[0] == "view":
+        return a[1] == b[1] and a[2].shape == b[2].shape and a[2].dtype == b[2].dtype and bool(np.array_equal(a[2], b[2]))
+    return a[1] == b[1]
+
+
+def show_obs(o):
+    if o[0] == "view":
+        return {"valid": o[1], "shape": list(o[2].shape), "data": o[2].ravel()[:40].tolist()}
+    return {"status": o[0], "what": o[2]}
 
 
 def _ranges(exp):
@@ -535,19 +570,30 @@ def run_case(case, ctx, bench):
     from nixio.dimensions import SliceMode
     smode = SliceMode.Exclusive if rule == "excl" else SliceMode.Inclusive
     blk = bench.block()
-    tag, refdata, featdata = build(case, blk)
+    tag, refdata, featdata, refsel, featsel = build(case, blk)
+    sel = case.get("sel") or {}
 
     ucls = unit_class(case, exp)
     ecls = ext_class(case, row)
     site = "%s.tagged_data" % kind
     if mt:
-        obs = observe(tag.tagged_data, posidx, 0, smode)
+        obs = observe(tag.tagged_data, posidx, refsel, smode)
     else:
-        obs = observe(tag.tagged_data, 0, smode)
+        obs = observe(tag.tagged_data, refsel, smode)
     bad = judge(exp, obs, refdata)
     if bad:
         ctx.violation("C08/%s/%s/%s" % (site, bad[0], key_class(exp, obs, refdata, case["ref"])),
-                      case, dict(bad[1], call=site))
+                      case, dict(bad[1], call=site, reference_addressed_by=sel.get("rby", "index"),
+                                 other_reference=sel.get("rdecoy", "none")))
+    # the deprecated spellings are the same questions (default stop rule)
+    if sel.get("dep") and rule == "excl" and hasattr(tag, "retrieve_data"):
+        import warnings
+        with warnings.catch_warnings():
+            warnings.simplefilter("ignore")
+            obs_d = observe(tag.retrieve_data, posidx, refsel) if mt else observe(tag.retrieve_data, refsel)
+        if not same_observation(obs, obs_d):
+            ctx.violation("C08/%s.retrieve_data/differs-from-tagged_data" % kind, case,
+                          {"tagged_data": show_obs(obs), "retrieve_data": show_obs(obs_d)})
 
     # ---- the same tag object is asked again after the unit of an addressed axis changed (through another
     # handle): the region follows the descriptors as they are NOW (no conversion factor may be remembered)
@@ -571,10 +617,10 @@ def run_case(case, ctx, bench):
             except OracleLimit:
                 break
             try:
-                tag.references[0].dimensions[d].unit = newunit
+                tag.references["ref"].dimensions[d].unit = newunit
             except Exception:  # noqa
                 break
-            obs2 = observe(tag.tagged_data, posidx, 0, smode) if mt else observe(tag.tagged_data, 0, smode)
+            obs2 = observe(tag.tagged_data, posidx, refsel, smode) if mt else observe(tag.tagged_data, refsel, smode)
             bad2 = judge(exp2, obs2, refdata)
             if bad2:
                 ctx.violation("C08/%s-after-axis-unit-change/%s/%s" % (site, bad2[0], key_class(exp2, obs2, refdata, spec2)),
@@ -600,6 +646,9 @@ def run_case(case, ctx, bench):
     classes.append("outcome:" + out)
     if requeried:
         classes.append("asked-again-after-axis-unit-change")
+    classes.append("reference-addressed-by:%s/other-reference-%s" % (sel.get("rby", "index"), sel.get("rdecoy", "none")))
+    if sel.get("dep") and rule == "excl":
+        classes.append("deprecated-spellings-compared")
     nt = case.get("ext") is not None
     for d, r in enumerate(exp.get("per", [])):
         if r.get("whole"):
@@ -634,9 +683,19 @@ def run_case(case, ctx, bench):
         fsite = "%s.feature_data/%s" % (kind, link)
         classes.append("feature:%s/%s" % (kind, link))
         if mt:
-            fobs = observe(tag.feature_data, posidx, 0, smode)
+            fobs = observe(tag.feature_data, posidx, featsel, smode)
         else:
-            fobs = observe(tag.feature_data, 0, smode)
+            fobs = observe(tag.feature_data, featsel, smode)
+        if sel.get("dep") and rule == "excl":
+            import warnings
+            with warnings.catch_warnings():
+                warnings.simplefilter("ignore")
+                fobs_d = (observe(tag.retrieve_feature_data, posidx, featsel) if mt
+                          else observe(tag.retrieve_feature_data, featsel))
+            if not same_observation(fobs, fobs_d):
+                ctx.violation("C08/%s.retrieve_feature_data/differs-from-feature_data" % kind, case,
+                              {"feature_data": show_obs(fobs), "retrieve_feature_data": show_obs(fobs_d)})
+        classes.append("feature-addressed-by:%s/other-feature-%s" % (sel.get("fby", "index"), sel.get("fdecoy", "none")))
         fshape = fspec["shape"]
         whole = tuple((0, m - 1) for m in fshape)
         fbad = None
@@ -668,7 +727,9 @@ def run_case(case, ctx, bench):
                          else {"status": fobs[0], "what": fobs[2]})
                 fbad = ("not-data-of-the-feature-array", {"observed": shown})
         if fbad:
-            ctx.violation("C08/%s/%s/%s" % (fsite, fbad[0], fcls), case, dict(fbad[1], call=fsite))
+            ctx.violation("C08/%s/%s/%s" % (fsite, fbad[0], fcls), case,
+                          dict(fbad[1], call=fsite, feature_addressed_by=sel.get("fby", "index"),
+                               other_feature=sel.get("fdecoy", "none")))
 
     ctx.case(case, nt, classes)
 
@@ -768,6 +829,13 @@ def valid(case):
                             if fa.get("unit") is None or unit_factor(fa["unit"], ra["unit"]) is None:
                                 return False
             if f["link"] == "indexed" and case["kind"] == "mtag" and f["shape"][0] > n:
+                return False
+        sel = case.get("sel")
+        if sel is not None:
+            if sel.get("rdecoy", "none") not in ("none", "before", "after") or \
+                    sel.get("fdecoy", "none") not in ("none", "before", "after") or \
+                    sel.get("rby", "index") not in ("index", "neg", "name", "id") or \
+                    sel.get("fby", "index") not in ("index", "neg", "fid", "dname", "did"):
                 return False
         # the oracle must be able to enumerate the region
         rows = range(n)
@@ -1030,6 +1098,12 @@ def recipes(draw):
             case["pos1d"] = False
         case["pcal"] = draw(st.sampled_from([None, None, None, None, "pos", "ext", "both"]))
     case["requery"] = draw(st.booleans())
+    if draw(st.sampled_from([True, True, False])):
+        case["sel"] = {"rdecoy": draw(st.sampled_from(["none", "before", "before", "after"])),
+                       "rby": draw(st.sampled_from(["index", "neg", "name", "id"])),
+                       "fdecoy": draw(st.sampled_from(["none", "before", "before", "after"])),
+                       "fby": draw(st.sampled_from(["index", "neg", "fid", "dname", "did"])),
+                       "dep": draw(st.booleans())}
     return case
 
 
